@@ -73,7 +73,7 @@ package api
 //@   let c = jnum(b, "counter")
 //@   let d = digitsof(jstr(b, "digits"))
 //@   let a = algoof(jstr(b, "algorithm"))
-//@   domain c + min(s, 10) <= 18446744073709551615
+//@   domain[maps] c + min(s, 10) <= 18446744073709551615
 //@   ensures[method] !ispost(ctx) ==> respstatus(ctx) == 405
 //@   ensures[badjson] ispost(ctx) && !jok(b, otpValidateReq) ==> respstatus(ctx) == 400
 //@   ensures[missing] ispost(ctx) && jok(b, otpValidateReq) && !(trim(jstr(b, "secret")) != "" && trim(jstr(b, "code")) != "") ==> respstatus(ctx) == 400
@@ -93,7 +93,7 @@ package api
 //@   let n = jnum(b, "timestamp") / p
 //@   let d = digitsof(jstr(b, "digits"))
 //@   let a = algoof(jstr(b, "algorithm"))
-//@   domain jnum(b, "timestamp") < 4611686018427387904 && (jnum(b, "timestamp") > 0 ==> n >= min(s, 10))
+//@   domain[maps] jnum(b, "timestamp") < 4611686018427387904 && (jnum(b, "timestamp") > 0 ==> n >= min(s, 10))
 //@   ensures[method] !ispost(ctx) ==> respstatus(ctx) == 405
 //@   ensures[badjson] ispost(ctx) && !jok(b, otpValidateReq) ==> respstatus(ctx) == 400
 //@   ensures[missing] ispost(ctx) && jok(b, otpValidateReq) && !(sec != "" && trim(jstr(b, "code")) != "") ==> respstatus(ctx) == 400
@@ -235,7 +235,7 @@ package api
 //@   let b = reqbody(ctx)
 //@   let pathcase = p == "/totp/generate" ? 1 : (p == "/totp/validate" ? 2 : (p == "/hotp/generate" ? 3 : (p == "/hotp/validate" ? 4 : (p == "/ocra/generate" ? 5 :
 //@ |   (p == "/ocra/validate" ? 6 : (p == "/ocra/suites" ? 7 : (p == "/ocra/suite" ? 8 : (p == "/otp/url" ? 9 : (p == "/otp/secret" ? 10 : (p == "/" ? 11 : (p == "/docs" ? 12 : 0)))))))))))
-//@   split pathcase in 0..12
+//@   split[post] pathcase in 0..12
 //@   ensures[notfound] !postpath(p) && !getpath(p) && p != "/docs" && !hasprefix(p, "/docs/") ==> respstatus(ctx) == 404 && respnbody(ctx) == 1
 //@   ensures[docs] p == "/docs" ==> respstatus(ctx) == 302
 //@   ensures[post] postpath(p) && !ispost(ctx) ==> respstatus(ctx) == 405
